@@ -66,3 +66,34 @@ Theorem C03_group_index_doc_order : forall D has_ns hc rm rn rr np i v c l,
      sel D has_ns hc rm rn rr (QFilter np (QGroup i) (QNum v)) c = Val (numbered (pick_nth (go_int v) s))).
 Proof. exact group_index_doc_order. Qed.
 Print Assumptions C03_group_index_doc_order.
+
+(* ---- the BUILDER (Proofs/BuildFilter.v) ---- *)
+From XP Require Import Parse Build.
+From XP.Proofs Require Import BuildFilter.
+
+(* step[pred] for ANY predicate (positional, numeric, boolean, failing): whichever
+   branch the builder takes (plain filter, filter with position bookkeeping, merge
+   rewrite with the step re-rooted on the context), the compiled query yields the same
+   node sequence as the plain filter over the compiled step, from every context node of
+   every document (the ancestor axis excepted: positional predicates on it are outside C03) *)
+Theorem C03_builder_step_filter_sound :
+  forall D has_ns hc rm rn rr re_ok d axis nty pre loc prop hasns ns inp cond fl fi q pr' fo,
+  process re_ok d (AFilter (AAxis axis nty pre loc prop hasns ns inp) cond) fl fi = Ok (q, pr', fo) ->
+  exists qi pr fi1 c prc fi2,
+    process re_ok (S d) (AAxis axis nty pre loc prop hasns ns inp) (input_flags fl) fi = Ok (qi, pr, fi1) /\
+    process re_ok (S d) cond (cond_flags fl) fi1 = Ok (c, prc, fi2) /\
+    (is_ancestor_q qi = false -> forall np ctx,
+       omap nodes_of (sel D has_ns hc rm rn rr q ctx) =
+       omap nodes_of (sel D has_ns hc rm rn rr (QFilter np qi (adj_cond c (adj_prc c prc))) ctx)).
+Proof. exact process_step_filter_sound. Qed.
+Print Assumptions C03_builder_step_filter_sound.
+
+(* (P)[pred] always compiles to a filter over the group of P: never rewritten *)
+Theorem C03_builder_group_filter : forall re_ok d inner cond fl fi q pr' fo,
+  process re_ok d (AFilter (AGroup inner) cond) fl fi = Ok (q, pr', fo) ->
+  exists qin pr fi0 fi1 c prc fi2,
+    process re_ok (S (S d)) inner fl_none fi = Ok (qin, pr, fi0) /\
+    process re_ok (S d) cond (cond_flags fl) fi1 = Ok (c, prc, fi2) /\
+    q = QFilter (negb (pr_haspos (adj_prc c prc))) (QGroup qin) (adj_cond c (adj_prc c prc)).
+Proof. exact process_group_filter_shape. Qed.
+Print Assumptions C03_builder_group_filter.
